@@ -59,6 +59,13 @@ def run_translator():
     # straight-line numeric / decision kernels (DESIGN 14.8): a function that can no longer be read becomes an
     # `-- UNREADABLE` stub, so that its tie theorem (lean/SimVerif/Tie/*.lean) fails: a broken obligation, not a pass
     kt = os.path.join(ROOT, "translator", "kernels.py")
+    # the reader is part of the trusted base of those ties: its self-test (translator/selftest.py: one small function per
+    # reader feature against a reviewed expectation) runs first; a difference means the machinery changed, not the code
+    stst = os.path.join(ROOT, "translator", "selftest.py")
+    if os.path.exists(stst):
+        rc, out, err = sh([sys.executable, stst])
+        if rc != 0:
+            raise MachineryError("translator self-test failed: " + (out + err).strip()[-1500:])
     rc, out, err = sh([sys.executable, kt, REPO, os.path.join(LEAN, "SimVerif", "Gen")])
     if rc != 0:
         failures.append("translator/kernels.py failed: " + (out + err).strip()[-600:])
